@@ -85,7 +85,7 @@ func successReturns(fn *ssa.Function) []core.ReturnSite {
 		if known && !nilPossible {
 			continue
 		}
-		if !known && guardedNonNil(rs.Val, rs.Ret) {
+		if !core.IsNilConst(rs.Val) && guardedNonNil(rs.Val, rs.Ret) {
 			continue
 		}
 		out = append(out, rs)
